@@ -180,6 +180,25 @@ func genC08(seed int64, tier string) *Scenario {
 			}
 		}
 	}
+	if r.Intn(6) == 0 && !faulted {
+		// recipe: the saved text is broken, the buffer is repaired but not saved, then the workspace
+		// is re-analysed because something else changes
+		n := names[r.Intn(len(names))]
+		o := names[r.Intn(len(names))]
+		if !open[n] && n != o && !open[o] {
+			tag := strings.NewReplacer("/", "_", ".", "_").Replace(n)
+			sc.Ops = append(sc.Ops,
+				Op{Kind: "fswrite", Path: n, Data: Bytes(fmt.Sprintf(c08Variants[1+r.Intn(2)], tag))}, Op{Kind: "deliver"},
+				Op{Kind: "open", Path: n},
+				Op{Kind: "change", Path: n, Edits: []Edit{{Full: true, Text: fmt.Sprintf(c08Variants[[]int{0, 3, 5}[r.Intn(3)]], tag)}}},
+				Op{Kind: "fswrite", Path: o, Data: Bytes(c08Content(r, o))}, Op{Kind: "deliver"}, Op{Kind: "check"})
+			open[n], exists[n], exists[o] = true, true, true
+			if r.Intn(2) == 0 {
+				// fix-then-break: back to the identical broken text, saved
+				sc.Ops = append(sc.Ops, Op{Kind: "change", Path: n, Edits: []Edit{{Full: true, Text: fmt.Sprintf(c08Variants[1], tag)}}}, Op{Kind: "save", Path: n}, Op{Kind: "deliver"}, Op{Kind: "check"})
+			}
+		}
+	}
 	// make the end clean: stop faults, deliver everything, save or close dirty buffers, and (after
 	// faults) let the world touch every file once more, which is what the next save would do.
 	sc.Ops = append(sc.Ops, Op{Kind: "clearfaults"}, Op{Kind: "deliver"})
